@@ -87,6 +87,22 @@ type c11Roles struct {
 	linkReturnsValidated map[*ssa.Function]bool
 }
 
+// c11Reaches: f, or an in-package function it statically calls (depth), calls name directly.
+func c11Reaches(f *ssa.Function, name string, depth int) bool {
+	if len(CallsTo(f, name)) > 0 {
+		return true
+	}
+	if depth <= 0 {
+		return false
+	}
+	for _, call := range Calls(f, func(string) bool { return true }) {
+		if g := StaticCallee(call); g != nil && g != f && len(g.Blocks) > 0 && fnPkgPath(g) == fnPkgPath(f) && c11Reaches(g, name, depth-1) {
+			return true
+		}
+	}
+	return false
+}
+
 func c11IsPathMutator(n string) bool { _, ok := c11PathArgs[n]; return ok }
 
 func c11HasStringErrResults(f *ssa.Function) bool {
@@ -130,7 +146,29 @@ func c11ResolveRoles(c *Ctx, fns []*ssa.Function) *c11Roles {
 		case len(c11FieldReads(f, c11AllowField)) > 0:
 			r.SW = append(r.SW, f)
 			r.role[f] = "write-path"
-		case f.Signature.Recv() == nil && !mutates(f) && len(CallsTo(f, "path/filepath.Rel")) > 0 && len(CallsTo(f, "os.Lstat")) > 0:
+		}
+	}
+	// archive-entry sanitiser: computes filepath.Rel and Lstats (itself or through in-package helpers), and
+	// is minimal with that property (the link-target sanitiser reaches both only through it)
+	var cand []*ssa.Function
+	for _, f := range fns {
+		if f.Parent() != nil || !c11HasStringErrResults(f) || r.role[f] != "" || f.Signature.Recv() != nil || mutates(f) {
+			continue
+		}
+		if c11Reaches(f, "path/filepath.Rel", 2) && c11Reaches(f, "os.Lstat", 2) {
+			cand = append(cand, f)
+		}
+	}
+	for _, f := range cand {
+		minimal := true
+		for _, call := range Calls(f, func(string) bool { return true }) {
+			for _, g := range cand {
+				if g != f && StaticCallee(call) == g {
+					minimal = false
+				}
+			}
+		}
+		if minimal {
 			r.SR = append(r.SR, f)
 			r.role[f] = "archive-entry"
 		}
@@ -830,10 +868,33 @@ func c11SuccessAtoms(fn *ssa.Function) []RetAtom {
 // c11DotDotTests finds the edges on which a value satisfying subject is known
 // not to start with "../" and not to equal "..".
 func c11DotDotTests(fn *ssa.Function, subject func(ssa.Value) bool) (prefixPass, eqPass []Edge) {
+	return c11DotDotTestsIn(fn, subject, true)
+}
+
+func c11DotDotTestsIn(fn *ssa.Function, subject func(ssa.Value) bool, helpers bool) (prefixPass, eqPass []Edge) {
 	for _, i := range Ifs(fn) {
 		cond, t, f := ifEdges(i)
 		switch x := cond.(type) {
 		case *ssa.Call:
+			if P := StaticCallee(x); helpers && P != nil && inModule(P) && P.Signature.Results().Len() == 1 {
+				if b, ok := P.Signature.Results().At(0).Type().Underlying().(*types.Basic); ok && b.Kind() == types.Bool {
+					for k, a := range x.Call.Args {
+						if !subject(a) {
+							continue
+						}
+						pfx, eq := c11PredicateImplies(P, k)
+						for pol, e := range map[bool]Edge{true: t, false: f} {
+							if pfx[pol] {
+								prefixPass = append(prefixPass, e)
+							}
+							if eq[pol] {
+								eqPass = append(eqPass, e)
+							}
+						}
+					}
+					continue
+				}
+			}
 			switch CalleeName(x) {
 			case "strings.HasPrefix":
 				if k, ok := constString(x.Call.Args[1]); ok && subject(x.Call.Args[0]) {
@@ -887,7 +948,7 @@ func c11AllAtomsPass(atoms []RetAtom, cutOf func() *cut) bool {
 
 func c11R2(c *Ctx, roles *c11Roles) {
 	const R2 = "C11.R2.sanitisers-reject"
-	c.Expect(R2, 12)
+	c.Expect(R2, 13)
 	for _, fn := range roles.SW {
 		c11R2Lexical(c, R2, fn, true)
 		c11R2WritePathAncestors(c, fn, roles)
@@ -903,22 +964,110 @@ func c11R2(c *Ctx, roles *c11Roles) {
 
 // c11R2Lexical: filepath.Rel + "../" prefix + ".." tests on every successful
 // return (for the write-path sanitiser: on the traversal-not-allowed side).
-func c11R2Lexical(c *Ctx, R2 string, fn *ssa.Function, hasAllow bool) {
-	tn := FnName(fn)
+// c11Link is one static call on the way from a sanitiser to the helper that
+// holds a check ("unit"): extracting a check into an unexported helper, or
+// inlining it back, does not change any verdict.
+type c11Link struct {
+	Caller *ssa.Function
+	Call   *ssa.Call
+}
+
+// c11FindUnit returns the function that directly satisfies has: S itself, or
+// an in-package static callee of S (depth <= 3), with the chain of calls.
+func c11FindUnit(S *ssa.Function, has func(*ssa.Function) bool, depth int, seen map[*ssa.Function]bool) (*ssa.Function, []c11Link) {
+	if has(S) {
+		return S, nil
+	}
+	if depth <= 0 || seen[S] {
+		return nil, nil
+	}
+	seen[S] = true
+	for _, call := range Calls(S, func(string) bool { return true }) {
+		cv, ok := call.(*ssa.Call)
+		g := StaticCallee(call)
+		if !ok || g == nil || len(g.Blocks) == 0 || fnPkgPath(g) != fnPkgPath(S) {
+			continue
+		}
+		if F, links := c11FindUnit(g, has, depth-1, seen); F != nil {
+			return F, append([]c11Link{{S, cv}}, links...)
+		}
+	}
+	return nil, nil
+}
+
+func c11AllowEdges(fn *ssa.Function) []Edge {
+	t, _ := BoolTests(fn, c11FieldReads(fn, c11AllowField))
+	return t
+}
+
+// c11LinksPass: along the chain, every successful return of the caller lies
+// behind the success of the call to the helper (or simply returns its error).
+func c11LinksPass(links []c11Link) bool {
+	for _, l := range links {
+		e := ErrOf(l.Call)
+		if e == nil {
+			return false
+		}
+		al := Aliases(e)
+		ne, _, _ := NilTests(l.Caller, al)
+		allow := c11AllowEdges(l.Caller)
+		for _, a := range c11SuccessAtoms(l.Caller) {
+			if al[a.Val] || al[strip(a.Val)] {
+				continue // `return helper(...)`: nil exactly when the helper succeeded
+			}
+			if len(ne) == 0 || !AtomMustPass(a, newCut().Edges(allow...).Edges(ne...)) {
+				return false
+			}
+		}
+	}
+	return true
+}
+
+// c11Lift maps values of the unit up the chain to values of the sanitiser:
+// parameters of a helper become the arguments at its call.
+func c11Lift(vals []ssa.Value, links []c11Link) []ssa.Value {
+	for i := len(links) - 1; i >= 0; i-- {
+		g := StaticCallee(links[i].Call)
+		var next []ssa.Value
+		for _, v := range vals {
+			var leaves []ssa.Value
+			c11Operands(v, &leaves, map[ssa.Value]bool{}, 0)
+			for _, lf := range leaves {
+				if prm, ok := lf.(*ssa.Parameter); ok && prm.Parent() == g {
+					for k, q := range g.Params {
+						if q == prm && k < len(links[i].Call.Call.Args) {
+							next = append(next, links[i].Call.Call.Args[k])
+						}
+					}
+				}
+			}
+		}
+		vals = next
+	}
+	return vals
+}
+
+// c11R2Lexical: filepath.Rel + "../" prefix + ".." tests on every successful
+// return (for the write-path sanitiser: on the traversal-not-allowed side).
+// The tests may live in the sanitiser or in a helper it calls.
+func c11R2Lexical(c *Ctx, R2 string, S *ssa.Function, hasAllow bool) {
+	tn := FnName(S)
+	fn, links := c11FindUnit(S, func(f *ssa.Function) bool { return len(CallsTo(f, "path/filepath.Rel")) > 0 }, 3, map[*ssa.Function]bool{})
+	if fn == nil {
+		c.Violation(R2, tn+"|rel-on-every-success-path", S.Pos(), "no filepath.Rel(base, target) left in the sanitiser (or a helper it calls): containment is not computed")
+		return
+	}
 	atoms := c11SuccessAtoms(fn)
-	if len(atoms) == 0 {
+	if len(atoms) == 0 || len(c11SuccessAtoms(S)) == 0 {
 		c.Undecided(R2, tn+"|success-returns", fn.Pos(), "no successful return found")
 		return
 	}
+	linkOK := c11LinksPass(links)
 	var allowT []Edge
 	if hasAllow {
-		allowT, _ = BoolTests(fn, c11FieldReads(fn, c11AllowField))
+		allowT = c11AllowEdges(fn)
 	}
 	rels := CallsTo(fn, "path/filepath.Rel")
-	if len(rels) == 0 {
-		c.Violation(R2, tn+"|rel-on-every-success-path", fn.Pos(), "no filepath.Rel(base, target) left in the sanitiser: containment is not computed")
-		return
-	}
 	relRes := map[ssa.Value]bool{}
 	var relNil []Edge
 	for _, r := range rels {
@@ -930,29 +1079,33 @@ func c11R2Lexical(c *Ctx, R2 string, fn *ssa.Function, hasAllow bool) {
 			relNil = append(relNil, ne...)
 		}
 	}
-	ok := len(relNil) > 0 && c11AllAtomsPass(atoms, func() *cut { return newCut().Edges(allowT...).Edges(relNil...) })
+	via := ""
+	if fn != S {
+		via = " (in helper " + FnName(fn) + ", whose success every successful return of the sanitiser lies behind)"
+	}
+	ok := linkOK && len(relNil) > 0 && c11AllAtomsPass(atoms, func() *cut { return newCut().Edges(allowT...).Edges(relNil...) })
 	c.Check(R2, tn+"|rel-on-every-success-path", rels[0].Pos(), ok,
-		ifelse(ok, "every successful return (with traversal not allowed) lies behind a successful filepath.Rel(base, target)",
+		ifelse(ok, "every successful return (with traversal not allowed) lies behind a successful filepath.Rel(base, target)"+via,
 			"a successful return is reachable without a successful filepath.Rel(base, target): an outside path is accepted"))
 	subject := func(v ssa.Value) bool { return c11DerivesFrom(v, relRes) }
 	pfx, eq := c11DotDotTests(fn, subject)
 	if len(pfx) == 0 {
-		c.Undecided(R2, tn+"|dotdot-prefix-rejected", fn.Pos(), "no test of the relative path against the \"../\" prefix in a recognised form (strings.HasPrefix(rel, \"../\") or filepath.IsLocal)")
+		c.Undecided(R2, tn+"|dotdot-prefix-rejected", fn.Pos(), "no test of the relative path against the \"../\" prefix in a recognised form (strings.HasPrefix(rel, \"../\"), filepath.IsLocal, or a boolean helper doing so)")
 	} else {
-		ok := c11AllAtomsPass(atoms, func() *cut { return newCut().Edges(allowT...).Edges(pfx...) })
+		ok := linkOK && c11AllAtomsPass(atoms, func() *cut { return newCut().Edges(allowT...).Edges(pfx...) })
 		c.Check(R2, tn+"|dotdot-prefix-rejected", fn.Pos(), ok,
-			ifelse(ok, "every successful return passes the not-prefixed-by-\"../\" edge", "a successful return is reachable although the relative path starts with \"../\" (name resolves outside the base)"))
+			ifelse(ok, "every successful return passes the not-prefixed-by-\"../\" edge"+via, "a successful return is reachable although the relative path starts with \"../\" (name resolves outside the base)"))
 	}
 	if len(eq) == 0 {
 		c.Undecided(R2, tn+"|dotdot-rejected", fn.Pos(), "no test of the relative path against \"..\" in a recognised form")
 	} else {
-		ok := c11AllAtomsPass(atoms, func() *cut { return newCut().Edges(allowT...).Edges(eq...) })
+		ok := linkOK && c11AllAtomsPass(atoms, func() *cut { return newCut().Edges(allowT...).Edges(eq...) })
 		c.Check(R2, tn+"|dotdot-rejected", fn.Pos(), ok,
-			ifelse(ok, "every successful return passes the rel != \"..\" edge", "a successful return is reachable although the relative path is \"..\" (the parent of the base)"))
+			ifelse(ok, "every successful return passes the rel != \"..\" edge"+via, "a successful return is reachable although the relative path is \"..\" (the parent of the base)"))
 	}
-	// what is validated is what is returned / what was given
+	// what is validated is what is returned / what was given (judged at the sanitiser's level)
 	retRoots := map[ssa.Value]bool{}
-	for _, a := range RetAtoms(fn, 0) {
+	for _, a := range RetAtoms(S, 0) {
 		if s, isStr := constString(a.Val); isStr && s == "" {
 			continue
 		}
@@ -962,27 +1115,61 @@ func c11R2Lexical(c *Ctx, R2 string, fn *ssa.Function, hasAllow bool) {
 	}
 	okArgs := true
 	for _, r := range rels {
-		tgt := r.Common().Args[1]
+		tgts := c11Lift([]ssa.Value{r.Common().Args[1]}, links)
+		if len(tgts) == 0 {
+			okArgs = false
+		}
 		if hasAllow {
 			// returned path and validated path share their origin; base comes from workingDir
-			if !c11DerivesFrom(tgt, retRoots) || !c11DerivesFrom(r.Common().Args[0], c11FieldReads(fn, c11WorkDir)) {
+			for _, tgt := range tgts {
+				if !c11DerivesFrom(tgt, retRoots) {
+					okArgs = false
+				}
+			}
+			baseOK := c11DerivesFrom(r.Common().Args[0], c11FieldReads(fn, c11WorkDir))
+			for _, bv := range c11Lift([]ssa.Value{r.Common().Args[0]}, links) {
+				if fn != S && c11DerivesFrom(bv, c11FieldReads(S, c11WorkDir)) {
+					baseOK = true
+				}
+			}
+			if !baseOK {
 				okArgs = false
 			}
 		} else {
-			// validated value is a parameter; returned value is the Rel result
-			isParam := false
-			for _, rt := range Roots(tgt) {
-				if _, ok := rt.(*ssa.Parameter); ok {
-					isParam = true
+			// validated value is a parameter of the sanitiser; returned value is the Rel result
+			for _, tgt := range tgts {
+				isParam := false
+				for _, rt := range Roots(tgt) {
+					if prm, ok := rt.(*ssa.Parameter); ok && prm.Parent() == S {
+						isParam = true
+					}
+				}
+				if !isParam {
+					okArgs = false
+				}
+			}
+			relS := relRes
+			if fn != S {
+				relS = map[ssa.Value]bool{}
+				if v := ResultOf(links[0].Call, 0); v != nil {
+					relS[v] = true
+				}
+				for _, a := range RetAtoms(fn, 0) {
+					if s, isStr := constString(a.Val); isStr && s == "" {
+						continue
+					}
+					if !c11DerivesFrom(a.Val, relRes) {
+						okArgs = false
+					}
 				}
 			}
 			derives := len(retRoots) > 0
 			for rt := range retRoots {
-				if !c11DerivesFrom(rt, relRes) {
+				if !c11DerivesFrom(rt, relS) {
 					derives = false
 				}
 			}
-			if !isParam || !derives {
+			if !derives {
 				okArgs = false
 			}
 		}
@@ -990,6 +1177,78 @@ func c11R2Lexical(c *Ctx, R2 string, fn *ssa.Function, hasAllow bool) {
 	c.Check(R2, tn+"|validates-what-it-returns", rels[0].Pos(), okArgs,
 		ifelse(okArgs, "the path handed to filepath.Rel and the path returned to the caller have the same origin",
 			"the path that is validated is not the path that is returned (or the base is not the working directory): the check does not cover the value the caller writes to"))
+}
+
+// c11PredicateImplies analyses an in-module boolean helper P(x): for which
+// result polarity does "P(x) == pol" imply that x passed the "../"-prefix test
+// resp. the ".." test?  (pointsToParent(rel) == false ⇒ both.)
+func c11PredicateImplies(P *ssa.Function, argIdx int) (prefix, eq map[bool]bool) {
+	prefix, eq = map[bool]bool{}, map[bool]bool{}
+	if argIdx >= len(P.Params) || len(P.Blocks) == 0 {
+		return
+	}
+	subj := func(v ssa.Value) bool { return c11DerivesFrom(v, map[ssa.Value]bool{P.Params[argIdx]: true}) }
+	pfxE, eqE := c11DotDotTestsIn(P, subj, false)
+	// test expressions whose own value decides the test
+	exprPfx, exprEq := map[ssa.Value]bool{}, map[ssa.Value]bool{} // value -> polarity of the expression on which the test PASSES
+	AllInstrs(P, func(in ssa.Instruction) {
+		switch x := in.(type) {
+		case *ssa.Call:
+			switch CalleeName(x) {
+			case "strings.HasPrefix":
+				if k, ok := constString(x.Call.Args[1]); ok && subj(x.Call.Args[0]) {
+					switch k {
+					case "../", `..\`:
+						exprPfx[x] = false
+					case "..":
+						exprPfx[x], exprEq[x] = false, false
+					}
+				}
+			case "path/filepath.IsLocal":
+				if subj(x.Call.Args[0]) {
+					exprPfx[x], exprEq[x] = true, true
+				}
+			}
+		case *ssa.BinOp:
+			if x.Op != token.EQL && x.Op != token.NEQ {
+				return
+			}
+			var other ssa.Value
+			if k, ok := constString(x.Y); ok && k == ".." {
+				other = x.X
+			} else if k, ok := constString(x.X); ok && k == ".." {
+				other = x.Y
+			}
+			if other != nil && subj(other) {
+				exprEq[x] = x.Op == token.NEQ
+			}
+		}
+	})
+	decide := func(edges []Edge, expr map[ssa.Value]bool, out map[bool]bool) {
+		for _, pol := range []bool{false, true} {
+			ok, any := true, false
+			for _, a := range RetAtoms(P, 0) {
+				if k, isConst := a.Val.(*ssa.Const); isConst && k.Value != nil {
+					if constant.BoolVal(k.Value) != pol {
+						continue // this return never yields pol
+					}
+				} else if pp, isExpr := expr[a.Val]; isExpr && pp == pol {
+					any = true
+					continue // the returned value is the test itself
+				}
+				any = true
+				if len(edges) == 0 || !AtomMustPass(a, newCut().Edges(edges...)) {
+					ok = false
+				}
+			}
+			if ok && any {
+				out[pol] = true
+			}
+		}
+	}
+	decide(pfxE, exprPfx, prefix)
+	decide(eqE, exprEq, eq)
+	return
 }
 
 // c11R2WritePathAncestors: a name whose *parent* components pass through a
@@ -1015,7 +1274,7 @@ func c11R2WritePathAncestors(c *Ctx, fn *ssa.Function, roles *c11Roles) {
 			if e := ErrOf(call); e != nil {
 				ne, _, _ := NilTests(fn, Aliases(e))
 				if pass(ne) {
-					c.OK(R, tn+"|ancestor-walk", call.Pos(), "every successful return (traversal not allowed) lies behind a successful call of the archive-entry sanitiser, which walks the ancestors")
+					c.OK(R, "write-path-sanitiser|ancestor-walk", call.Pos(), "["+tn+"] every successful return (traversal not allowed) lies behind a successful call of the archive-entry sanitiser, which walks the ancestors")
 					return
 				}
 			}
@@ -1039,7 +1298,7 @@ func c11R2WritePathAncestors(c *Ctx, fn *ssa.Function, roles *c11Roles) {
 				}
 			}
 			if okSym && pass(l.Exits) {
-				c.OK(R, tn+"|ancestor-walk", L.Pos(), "every successful return (traversal not allowed) leaves through the ancestor Lstat loop, in which a symlink ancestor ends in an error")
+				c.OK(R, "write-path-sanitiser|ancestor-walk", L.Pos(), "["+tn+"] every successful return (traversal not allowed) leaves through the ancestor Lstat loop, in which a symlink ancestor ends in an error")
 				return
 			}
 		}
@@ -1048,12 +1307,12 @@ func c11R2WritePathAncestors(c *Ctx, fn *ssa.Function, roles *c11Roles) {
 	for _, r := range CallsTo(fn, "path/filepath.Rel") {
 		for _, ev := range CallsTo(fn, "path/filepath.EvalSymlinks") {
 			if v := ResultOf(ev, 0); v != nil && c11DerivesFrom(r.Common().Args[1], map[ssa.Value]bool{v: true}) {
-				c.OK(R, tn+"|ancestor-walk", r.Pos(), "filepath.Rel is applied to the symlink-resolved (EvalSymlinks) path")
+				c.OK(R, "write-path-sanitiser|ancestor-walk", r.Pos(), "["+tn+"] filepath.Rel is applied to the symlink-resolved (EvalSymlinks) path")
 				return
 			}
 		}
 	}
-	c.Violation(R, tn+"|ancestor-walk", fn.Pos(), "the write-path sanitiser is lexical only: it neither walks the ancestors of the name with Lstat (as the archive-entry sanitiser does) nor resolves symbolic links before "+
+	c.Violation(R, "write-path-sanitiser|ancestor-walk", fn.Pos(), "the write-path sanitiser ("+tn+") is lexical only: it neither walks the ancestors of the name with Lstat (as the archive-entry sanitiser does) nor resolves symbolic links before "+
 		"filepath.Rel. A named blob titled \"<dir>/<link>/evil.txt\", where <link> is a symbolic link inside the working directory that points outside (planted by an earlier unpacked archive via "+
 		"up -> ../.. ; x -> up/../../outside, or pre-existing), passes the check and os.MkdirAll/os.Create then write outside the working directory; Push returns nil "+
 		"(demo: checker/c11_demo_symlinked_parent.txt)")
@@ -1134,16 +1393,64 @@ func c11SymlinkEdges(p *Prog, fn *ssa.Function, info map[ssa.Value]bool) (sym, n
 	return
 }
 
-func c11R2AncestorWalk(c *Ctx, R2 string, fn *ssa.Function) {
-	tn := FnName(fn)
+// c11RelLike: the values of fn that denote the relative path computed by
+// filepath.Rel — Rel results in fn, results of in-package helpers that compute
+// Rel, and (down a chain of links) parameters that receive such a value.
+func c11RelLike(S *ssa.Function, links []c11Link) map[ssa.Value]bool {
+	level := func(fn *ssa.Function) map[ssa.Value]bool {
+		out := map[ssa.Value]bool{}
+		for _, call := range Calls(fn, func(string) bool { return true }) {
+			if CalleeName(call) == "path/filepath.Rel" {
+				if v := ResultOf(call, 0); v != nil {
+					out[v] = true
+				}
+			} else if g := StaticCallee(call); g != nil && g != fn && fnPkgPath(g) == fnPkgPath(fn) && len(g.Blocks) > 0 && c11Reaches(g, "path/filepath.Rel", 1) {
+				if res := g.Signature.Results(); res.Len() > 0 {
+					if b, ok := res.At(0).Type().Underlying().(*types.Basic); ok && b.Kind() == types.String {
+						if v := ResultOf(call, 0); v != nil {
+							out[v] = true
+						}
+					}
+				}
+			}
+		}
+		return out
+	}
+	cur := level(S)
+	for _, l := range links {
+		g := StaticCallee(l.Call)
+		next := level(g)
+		for i, prm := range g.Params {
+			if i < len(l.Call.Call.Args) && c11DerivesFrom(l.Call.Call.Args[i], cur) {
+				next[prm] = true
+			}
+		}
+		cur = next
+	}
+	return cur
+}
+
+func c11R2AncestorWalk(c *Ctx, R2 string, S *ssa.Function) {
+	tn := FnName(S)
+	// the walk may live in the sanitiser or in a helper it calls
+	fn, links := c11FindUnit(S, func(f *ssa.Function) bool {
+		for _, l := range Loops(f) {
+			for _, call := range CallsTo(f, "os.Lstat") {
+				if l.Contains(call.(ssa.Instruction)) {
+					return true
+				}
+			}
+		}
+		return false
+	}, 3, map[*ssa.Function]bool{})
+	if fn == nil {
+		c.Violation(R2, tn+"|ancestor-walk", S.Pos(), "no loop that Lstats the ancestors of the entry: a symbolic link planted by an earlier entry redirects later writes outside")
+		return
+	}
+	linkOK := c11LinksPass(links)
 	atoms := c11SuccessAtoms(fn)
 	errIdx := ErrResultIndex(fn.Signature)
-	relRes := map[ssa.Value]bool{}
-	for _, r := range CallsTo(fn, "path/filepath.Rel") {
-		if v := ResultOf(r, 0); v != nil {
-			relRes[v] = true
-		}
-	}
+	relRes := c11RelLike(S, links)
 	var L ssa.CallInstruction
 	var loop *Loop
 	for _, l := range Loops(fn) {
@@ -1159,7 +1466,7 @@ func c11R2AncestorWalk(c *Ctx, R2 string, fn *ssa.Function) {
 	}
 	header := loop.Header.Instrs[0]
 	// (a) not bypassed
-	ok := c11AllAtomsPass(atoms, func() *cut { return newCut().Edges(loop.Exits...) })
+	ok := linkOK && c11AllAtomsPass(atoms, func() *cut { return newCut().Edges(loop.Exits...) })
 	c.Check(R2, tn+"|ancestor-walk-not-bypassed", L.Pos(), ok,
 		ifelse(ok, "every successful return leaves through an exit edge of the ancestor loop", "a successful return is reachable without running the ancestor symlink walk"))
 	// (b) the walk starts at Dir(rel) and steps with Dir(dir)
@@ -1204,6 +1511,41 @@ func c11R2AncestorWalk(c *Ctx, R2 string, fn *ssa.Function) {
 	}
 	c.Check(R2, tn+"|ancestor-walk-covers-every-parent", L.Pos(), okWalk,
 		ifelse(okWalk, "the walk starts at Dir(rel), steps with Dir(dir) and Lstats base+dir", "the ancestor walk does not start at the entry's parent, does not step to each parent, or does not probe base+ancestor: some ancestor is never checked"))
+	// (b') the loop is left only when the cursor has reached the base (the exit test on the
+	// loop-carried cursor) or with an error: a break / return nil on "exists and is not a
+	// symlink" stops the walk below a symlinked grand-parent
+	var baseExits, otherExits []Edge
+	for _, e := range loop.Exits {
+		isBase := false
+		if ifi, ok := e.From.Instrs[len(e.From.Instrs)-1].(*ssa.If); ok && phi != nil {
+			if bo, ok := ifi.Cond.(*ssa.BinOp); ok && (bo.Op == token.EQL || bo.Op == token.NEQ) {
+				cur := map[ssa.Value]bool{phi: true}
+				_, kx := strip(bo.X).(*ssa.Const)
+				_, ky := strip(bo.Y).(*ssa.Const)
+				if (ky && c11DerivesFrom(bo.X, cur)) || (kx && c11DerivesFrom(bo.Y, cur)) {
+					isBase = true
+				}
+			}
+		}
+		if isBase {
+			baseExits = append(baseExits, e)
+		} else {
+			otherExits = append(otherExits, e)
+		}
+	}
+	okExit := len(baseExits) > 0 && c11AllAtomsPass(atoms, func() *cut { return newCut().Edges(baseExits...) })
+	for _, e := range otherExits {
+		// (success atoms exclude errors returned on the non-nil side of their own test)
+		for _, a := range atoms {
+			ab, ai := a.anchor()
+			if reach(e.To, 0, ab.Instrs[ai], nil) {
+				okExit = false
+			}
+		}
+	}
+	c.Check(R2, tn+"|ancestor-walk-left-only-at-base", L.Pos(), okExit,
+		ifelse(okExit, "the walk is left only through the cursor-reached-the-base test or with an error", "the ancestor walk can be left early (break / successful return) before the cursor reaches the base: "+
+			"a symbolic link higher up is never examined, later entries are written through it"))
 	// (c) every iteration Lstats
 	okIter := true
 	for _, s := range loop.Header.Succs {
@@ -1371,6 +1713,8 @@ func c11Operands(v ssa.Value, out *[]ssa.Value, seen map[ssa.Value]bool, depth i
 			for _, a := range u.Call.Args {
 				c11Operands(a, out, seen, depth+1)
 			}
+		case *ssa.Extract:
+			c11Operands(u.Tuple, out, seen, depth+1)
 		case *ssa.Slice:
 			c11Operands(u.X, out, seen, depth+1)
 		case *ssa.Alloc:
@@ -1413,12 +1757,16 @@ func c11R2Link(c *Ctx, R2 string, fn *ssa.Function, roles *c11Roles) {
 	// which argument of the archive-entry sanitiser is the validated path: the
 	// parameter that reaches filepath.Rel's target
 	tIdx := -1
-	for _, r := range CallsTo(g, "path/filepath.Rel") {
-		for _, rt := range Roots(r.Common().Args[1]) {
-			if p, ok := rt.(*ssa.Parameter); ok {
-				for i, q := range g.Params {
-					if q == p {
-						tIdx = i
+	if relFn, relLinks := c11FindUnit(g, func(f *ssa.Function) bool { return len(CallsTo(f, "path/filepath.Rel")) > 0 }, 3, map[*ssa.Function]bool{}); relFn != nil {
+		for _, r := range CallsTo(relFn, "path/filepath.Rel") {
+			for _, v := range c11Lift([]ssa.Value{r.Common().Args[1]}, relLinks) {
+				for _, rt := range Roots(v) {
+					if p, ok := rt.(*ssa.Parameter); ok {
+						for i, q := range g.Params {
+							if q == p {
+								tIdx = i
+							}
+						}
 					}
 				}
 			}
@@ -1528,6 +1876,29 @@ func c11SliceElems(v ssa.Value, out *[]ssa.Value) {
 
 // ---------- R3 ----------
 
+// c11OriginRole names where a sink's path comes from; together with the callee
+// it identifies a sink independently of the unexported function that happens
+// to contain it (extracting or inlining helpers keeps known-finding keys).
+func c11OriginRole(flow *c11Flow, s *c11Site) string {
+	role := "unsanitised"
+	for _, idx := range c11PathArgs[s.Name] {
+		for _, l := range s.Leafs[idx] {
+			if l.Kind != "san" {
+				continue
+			}
+			switch flow.roles.role[StaticCallee(l.San)] {
+			case "archive-entry", "link-target":
+				role = "archive-entry"
+			case "write-path":
+				if role == "unsanitised" {
+					role = "named-blob"
+				}
+			}
+		}
+	}
+	return role
+}
+
 func c11R3(c *Ctx, flow *c11Flow, sites []*c11Site) {
 	const RF, RL = "C11.R3.final-component-follow", "C11.R3.hardlink-oldname-validated"
 	// no minimum count: a repair legitimately removes these sinks (fd-based chmod, os.Root …); the
@@ -1539,7 +1910,15 @@ func c11R3(c *Ctx, flow *c11Flow, sites []*c11Site) {
 		}
 	}
 	c.Exists(RF, "sinks-scanned", token.NoPos, true, fmt.Sprintf("%d link-following / hard-link sinks among %d mutator sites examined", nf, len(sites)))
+	roleCount := map[string]int{}
 	for _, s := range sites {
+		// role-based construct key: origin of the path + callee (+ ordinal among equals)
+		rk := c11OriginRole(flow, s) + "|" + s.Name
+		roleCount[rk]++
+		if roleCount[rk] > 1 {
+			rk = fmt.Sprintf("%s#%d", rk, roleCount[rk])
+		}
+		where := " [in " + FnName(s.Fn) + "]"
 		if c11Followers[s.Name] {
 			follows, known := true, true
 			if s.Name == "os.OpenFile" {
@@ -1555,13 +1934,13 @@ func c11R3(c *Ctx, flow *c11Flow, sites []*c11Site) {
 			case !influenced:
 				// path not attacker-named (temp files, constants): nothing to guard
 			case !known:
-				c.Undecided(RF, s.Key, s.Call.Pos(), "open flags are not constant: cannot tell whether the final component is followed")
+				c.Undecided(RF, rk, s.Call.Pos(), "open flags are not constant: cannot tell whether the final component is followed")
 			case !follows:
-				c.OK(RF, s.Key, s.Call.Pos(), "exclusive create / O_NOFOLLOW: the final component is not followed")
+				c.OK(RF, rk, s.Call.Pos(), "exclusive create / O_NOFOLLOW: the final component is not followed")
 			default:
 				ok, how := c11NoFollowGuard(c.P, flow, s.Fn, s.Call, 0, 0)
-				c.Check(RF, s.Key, s.Call.Pos(), ok,
-					ifelse(ok, how, s.Name+" follows a symbolic link in the last component of an archive-/name-controlled path and no no-follow guard "+
+				c.Check(RF, rk, s.Call.Pos(), ok,
+					ifelse(ok, how+where, s.Name+where+" follows a symbolic link in the last component of an archive-/name-controlled path and no no-follow guard "+
 						"(Lstat+ModeSymlink test, prior Remove, exclusive create) dominates it on the same path value: an earlier entry can plant a link whose target is lexically inside "+
 						"but really outside the working directory, and this call then writes/re-modes the outside file"))
 			}
@@ -1579,8 +1958,8 @@ func c11R3(c *Ctx, flow *c11Flow, sites []*c11Site) {
 					bad = append(bad, "old name derives from "+l.What)
 				}
 			}
-			c.Check(RL, s.Key, s.Call.Pos(), len(bad) == 0,
-				ifelse(len(bad) == 0, "the hard link's old name is the validated path itself", strings.Join(bad, "; ")+
+			c.Check(RL, rk, s.Call.Pos(), len(bad) == 0,
+				ifelse(len(bad) == 0, "the hard link's old name is the validated path itself"+where, strings.Join(bad, "; ")+where+
 					" — a hard-link entry can name a file outside the working directory (relative to the process CWD) and a following regular entry rewrites it"))
 		}
 	}
@@ -1687,6 +2066,10 @@ var c11Mutants = []Mutant{
 		Old:    "\t\tdir = filepath.Dir(dir)\n\t}",
 		New:    "\t\tdir = \".\"\n\t}",
 		Expect: "C11.R2.sanitisers-reject|~/content/file.resolveRelToBase|ancestor-walk-covers-every-parent"},
+	{Name: "ancestor-walk-stops-at-first-real-dir", File: "content/file/utils.go",
+		Old:    "\t\t} else if info.Mode()&os.ModeSymlink != 0 {\n\t\t\treturn \"\", fmt.Errorf(\"no symbolic link allowed between %q and %q\", baseRel, target)\n\t\t}\n",
+		New:    "\t\t} else if info.Mode()&os.ModeSymlink != 0 {\n\t\t\treturn \"\", fmt.Errorf(\"no symbolic link allowed between %q and %q\", baseRel, target)\n\t\t} else if info.IsDir() {\n\t\t\tbreak\n\t\t}\n",
+		Expect: "C11.R2.sanitisers-reject|~/content/file.resolveRelToBase|ancestor-walk-left-only-at-base"},
 	{Name: "link-target-validated-unresolved", File: "content/file/utils.go",
 		Old:    "\tif _, err := resolveRelToBase(baseAbs, baseRel, path); err != nil {",
 		New:    "\t_ = path\n\tif _, err := resolveRelToBase(baseAbs, baseRel, target); err != nil {",
@@ -1716,7 +2099,7 @@ var c11Mutants = []Mutant{
 	{Name: "new-chmod-after-create", File: "content/file/file.go",
 		Old:    "\tfp, err := os.Create(target)\n\tif err != nil {\n\t\treturn fmt.Errorf(\"failed to create file %s: %w\", target, err)\n\t}\n",
 		New:    "\tfp, err := os.Create(target)\n\tif err != nil {\n\t\treturn fmt.Errorf(\"failed to create file %s: %w\", target, err)\n\t}\n\t_ = os.Chmod(target, 0644)\n",
-		Expect: "C11.R3.final-component-follow|(*~/content/file.Store).pushFile|os.Chmod"},
+		Expect: "C11.R3.final-component-follow|named-blob|os.Chmod"},
 	{Name: "new-marker-file-in-unpack-dir", File: "content/file/file.go",
 		Old:    "\tgz, err := s.tempFile()\n\tif err != nil {\n\t\treturn err\n\t}\n\n\tgzPath := gz.Name()",
 		New:    "\tif mf, err := os.Create(filepath.Join(target, name)); err == nil {\n\t\tmf.Close()\n\t}\n\tgz, err := s.tempFile()\n\tif err != nil {\n\t\treturn err\n\t}\n\n\tgzPath := gz.Name()",
